@@ -638,6 +638,23 @@ impl Sys {
             }
         }
         ensure!(set.len() == all.len(), "C14", "hashset-cardinality", "{} issued handles collapse to {} in a HashSet", all.len(), set.len());
+        // direct handles of all live entities of this world (all archetypes): distinct entities, unequal handles
+        let mut directs: Vec<(Bits, EntityDirectAny)> = Vec::new();
+        for (bits, ent) in self.models[w].live.clone() {
+            let world = self.worlds[w].as_ref().unwrap();
+            let a = ent.arch as usize;
+            if let Some(d) = guard("C14", "to_direct", || Ok(with_arch!(a, A => <A as Arch>::x_to_direct(world, Hk::E(typed::<A>(ent.any)), Via::Arch))))? {
+                ensure!(d.archetype_id() == ent.any.archetype_id(), "C14", "direct-handle-wrong-archetype-id", "to_direct({:?}) = {:?}", ent.any, d);
+                directs.push((bits, d));
+            }
+        }
+        let dset: HashSet<EntityDirectAny> = directs.iter().map(|x| x.1).collect();
+        ensure!(dset.len() == directs.len(), "C14", "hashset-cardinality:direct", "direct handles of {} live entities collapse to {} in a HashSet", directs.len(), dset.len());
+        for i in 0..directs.len() {
+            for j in 0..i {
+                ensure!(directs[i].1 != directs[j].1, "C14", "distinct-entities-compare-equal:direct", "direct handles {:?} (of {:?}) and {:?} (of {:?}) compare equal", directs[i].1, directs[i].0, directs[j].1, directs[j].0);
+            }
+        }
         Ok(())
     }
 
